@@ -480,10 +480,31 @@ def gen_case(rng, kind):
     elif kind == "nodes":
         seeds = gen_seeds(rng, rng.randint(1, 8), 16)
         ops, root = gen_ops(rng, seeds, rng.randint(1, 6), negation=rng.random() < 0.2)
+    elif kind == "wide":
+        # many cheap, nearly disjoint proofs with small probabilities: the union bound is far from saturated,
+        # so a residual / probe mass that is too small shows up as an interval that misses the truth
+        n = rng.randint(5, 8)          # 8 seeds x 6 bits: every f64 operation stays exact
+        ids = sorted(rng.sample(range(0, 16), n))
+        seeds = [[i, rng.randint(1, 6), 64, None] for i in ids]
+        ops = [["lit", i] for i in ids]
+        lits = list(range(2, 2 + n))
+        refs = []
+        for _ in range(rng.randint(4, 9)):
+            p = sorted(rng.sample(lits, rng.choice([1, 1, 1, 2])))
+            if len(p) == 1:
+                refs.append(p[0])
+            else:
+                ops.append(["and", p])
+                refs.append(len(ops) + 1)
+        ops.append(["or", refs])
+        root = len(ops) + 1
     else:
         raise ValueError(kind)
     truth = quick_truth(seeds, ops, root)
     cfg = gen_cfg(rng, truth, small_nodes=(kind == "nodes"))
+    if kind == "wide":
+        cfg["k0"] = rng.choice([1, 1, 2])
+        cfg["kmax"] = cfg["k0"] * rng.choice([1, 2])
     return {"kind": kind, "seeds": seeds, "ops": ops, "root": root, "cfg": cfg, "exact": kind != "float"}
 
 
@@ -596,6 +617,16 @@ def evaluate(ctx, binpath, cases, stream, nbudget=16, all_n=False):
         plan.append((len(exprs), where))
         exprs.append("(%s, %s, %s, %s)" % (e1, e2, e3, e4))
     model = ctx.run_model("Hybrid", REQ, exprs, preamble=PRE, timeout=1500)
+    # a shard killed by the OS (out of memory / overloaded machine) is an infrastructure failure: re-run its cases
+    for attempt in range(2):
+        failed = [i for i, m in enumerate(model) if isinstance(m, tuple) and m and m[0] == "ERROR"]
+        if not failed:
+            break
+        ctx.log("%s: re-running %d model evaluations whose coqc shard failed (%s)" % (stream, len(failed), str(model[failed[0]][1])[:60]))
+        again = ctx.run_model("Hybrid", REQ, [exprs[i] for i in failed], preamble=PRE, timeout=1500,
+                              chunk=max(1, (len(failed) + 7) // 8))
+        for i, m in zip(failed, again):
+            model[i] = m
     for ci, (c, im) in enumerate(zip(cases, impl)):
         if plan[ci] is None:
             continue
@@ -772,6 +803,63 @@ def evaluate(ctx, binpath, cases, stream, nbudget=16, all_n=False):
                exclusive=dist["excl"], negated=dist["neg"], statuses=dist["status"], reasons=dist["reasons"])
 
 
+# ---- end to end: Reasoner::infer_new_facts_with_hybrid --------------------------------------------------------
+def gen_e2e(rng):
+    nodes = [1, 2, 3, 4]
+    edges = [(a, b) for a in nodes for b in nodes if a != b]
+    chosen = rng.sample(edges, rng.randint(3, 8))
+    facts = [[a, 10, b, rng.randint(1, 15), 16] for a, b in chosen]
+    rules = [{"premise": [["x", 10, "y"], ["y", 10, "z"]], "negative": [], "conclusion": [["x", 11, "z"]]},
+             {"premise": [["x", 11, "y"]], "negative": [], "conclusion": [["x", 12, "y"]]},
+             {"premise": [["x", 10, "y"]], "negative": [], "conclusion": [["x", 12, "y"]]}]
+    if rng.random() < 0.6:
+        rules.append({"premise": [["x", 12, "y"], ["y", 10, "z"]], "negative": [], "conclusion": [["x", 13, "z"]]})
+    if rng.random() < 0.4:
+        rules.append({"premise": [["x", 10, "y"]], "negative": [["y", 10, "x"]], "conclusion": [["x", 14, "y"]]})
+    thr = F(rng.randint(0, 32), 32)
+    cfg = {"thr": [thr.numerator, thr.denominator], "band": [1, rng.choice([1, 8, 64])], "floor": [rng.choice([0, 1]), 1024],
+           "k0": rng.choice([1, 1, 2, 4]), "kmax": rng.choice([4, 8, 16]), "kg": 2, "nodes": rng.choice([100000, 100000, 30]),
+           "tb": 2 * TB, "sb": 5 * TB}
+    return {"e2e": True, "facts": facts, "rules": rules, "cfg": cfg}
+
+
+def evaluate_e2e(ctx, binpath, cases, stream):
+    impl = ctx.run_impl(binpath, cases)
+    nfacts = nviol = nneg = 0
+    statuses = {}
+    for c, im in zip(cases, impl):
+        ctx.count()
+        if im is None or "panic" in im or "driver_died" in im:
+            ctx.violation(c, {"what": "Reasoner::infer_new_facts_with_hybrid panicked / died", "impl": im})
+            nviol += 1
+            continue
+        if "error" in im:
+            ctx.broken("correspondence", stream, "a layered, non-recursive rule set was rejected: %s" % im["error"], c)
+            continue
+        seeds = [[i, f[3], f[4], None] for i, f in enumerate(c["facts"])]
+        orc = Oracle(seeds)
+        thr = F(*c["cfg"]["thr"])
+        for fct in im["facts"]:
+            nfacts += 1
+            ctx.count()
+            nodes = sorted(fct["nodes"], key=lambda x: x[0])
+            truth = orc.prob(orc.arena_tables(nodes)[fct["root"]], orc.weights())
+            nneg += any(nd[0] == "N" for _, nd in nodes)
+            r = fct["result"]
+            if r is None:
+                ctx.violation(c, {"what": "a derived fact has no hybrid result", "fact": fct["triple"]})
+                nviol += 1
+                continue
+            statuses[r["status"]] = statuses.get(r["status"], 0) + 1
+            msg = spec_check(canon_impl(r), truth, thr)
+            if msg:
+                ctx.violation(c, {"what": msg, "fact": fct["triple"], "result": r, "truth": str(truth), "lineage": nodes})
+                nviol += 1
+            if 0 < truth < 1 and len(nodes) >= 3:
+                ctx.nontrivial(("e2e", c["facts"], fct["triple"], c["cfg"]))
+    ctx.stream(stream, cases=len(cases), derived_facts=nfacts, with_negation=nneg, spec_violations=nviol, statuses=statuses)
+
+
 def render(b):
     return {k: (str(v) if isinstance(v, F) else [None if x is None else str(x) for x in v] if k == "vals" else v) for k, v in b.items()}
 
@@ -828,7 +916,7 @@ def run(ctx):
                                         "the deadline expiring at every clock reading in three clock shapes" % (len(ex) // 128))
     # random streams
     mult = 8 if ctx.thorough else 1
-    for kind, n in (("mono", 120), ("neg", 40), ("excl", 40), ("nodes", 40), ("missing", 16), ("float", 40)):
+    for kind, n in (("mono", 120), ("wide", 40), ("neg", 40), ("excl", 40), ("nodes", 40), ("missing", 16), ("float", 40)):
         cs = [gen_case(rng, kind) for _ in range(n * mult)]
         # a few explicit arbitrary (non-monotone) clocks
         for c in cs[: max(4, len(cs) // 4)]:
@@ -836,14 +924,20 @@ def run(ctx):
             c["clocks"] = [[rng.choice(vals) for _ in range(rng.randint(1, 40))] for _ in range(3)]
         ctx.sample({k: cs[0][k] for k in ("kind", "seeds", "ops", "root", "cfg")})
         evaluate(ctx, binpath, cs, "random_" + kind, nbudget=12 if not ctx.thorough else 60)
+    e2e = [gen_e2e(rng) for _ in range(30 * mult)]
+    ctx.sample({k: e2e[0][k] for k in ("facts", "rules", "cfg")})
+    evaluate_e2e(ctx, binpath, e2e, "end_to_end_reasoner")
     ctx.finish(level="proof", rule=PROP_RULE, trusted_base=TRUSTED, assumptions=ASSUME)
 
 
 def replay(ctx):
     binpath = ctx.harness("c08")
     c = ctx.replay["case"]
-    if "case" in c and "ops" not in c:
+    if "case" in c and "ops" not in c and "e2e" not in c:
         c = c["case"]
+    if c.get("e2e"):
+        evaluate_e2e(ctx, binpath, [c], "replay")
+        ctx.finish(level="proof", rule=PROP_RULE, trusted_base=TRUSTED, assumptions=ASSUME)
     case = {k: c[k] for k in ("seeds", "ops", "root", "cfg")}
     case["kind"] = c.get("kind", "replay")
     case["exact"] = c.get("exact", True)
